@@ -53,6 +53,42 @@ def light_slack(model, rows, kern):
             worst = max(worst, 8 * amax * (math.sqrt(2.0 ** -23) * nrm * Mmax * math.sqrt(rows.shape[1]) / L) ** min(1.0, q))
     return worst
 
+def class_formula(ck, xr, orc, model, qc, kern, desc, cmode, n_trees):
+    """predict_proba == mean over the held trees of the DECODED expansion of the leaf reached (decode per tree, then average: the decoder clamps, so the
+    order matters for rows on which some tree is confident and another is not); returns the number of rows checked"""
+    with xr.quiet():
+        gotp = np.asarray(model.predict_proba(torch.tensor(qc)), dtype=np.float64)
+    conv = model.class_converter_
+    W = max(float(l['model'].weights.abs().sum()) for t in model.trees for l in orc.tree_leaves(t))
+    checked = 0; sat_mixed = 0
+    for r, row in enumerate(qc):
+        acc = None; near_any = False; sat = []
+        for t in model.trees:
+            lids = orc.assign_leaf_ids(t)
+            lid, near = orc.exact_route(t, row, lids)
+            near_any |= near
+            leaf = orc.tree_leaves(t)[lid]
+            val = torch.tensor([[float(v) for v in orc.leaf_expansion(leaf['model'], row)]], dtype=torch.float32)
+            pr = np.asarray(conv.numerical_to_probas(val, eps=1e-3), dtype=np.float64).reshape(-1)
+            sat.append(bool(pr.max() >= 0.998))
+            acc = pr if acc is None else acc + pr
+        if near_any:
+            ck.skip('formula rows near a threshold'); continue
+        sat_mixed += int(any(sat) and not all(sat))
+        exp = acc / len(model.trees)
+        tol = 2e-4 + 4 * (2e-6 * (W + 1.0) + light_slack(model, qc[r:r + 1], kern))
+        err = float(np.max(np.abs(exp - gotp[r])))
+        checked += 1
+        ck.case(dict(desc, kind='formula-proba', row=r), nontrivial=True); ck.count('class-probability formula rows')
+        if not (err <= tol):
+            ck.violation(f'predict_proba != mean over held trees of the decoded expansion of the leaf reached: err={err:.3g} tol={tol:.3g} on {desc} row {r}',
+                         dict(desc, row=row.tolist(), got=gotp[r].tolist(), expected=exp.tolist()),
+                         key=json.dumps(dict(site='formula-proba', cmode=cmode, trees=f'{len(model.trees)}/{n_trees}')))
+    ck.count('class-probability rows on which some trees saturate the clamp and others do not', sat_mixed)
+    return checked
+
+
+
 def run(ck):
     from harness import xr
     ck.rule = ('real xRFM fits (depth 0-4, 1-3 trees, overlap 0/0.1, several kernels/tasks); (i) leaves replaced by exact probe '
@@ -164,6 +200,12 @@ def run(ck):
                                  dict(desc, row=row.tolist(), got=got[r].tolist(), expected=[float(e) for e in exp]),
                                  key=json.dumps(dict(site='formula', kernel=kern, trees=f'{len(model.trees)}/{n_trees}')))
 
+        # ---------- (ii-class) class probabilities: the DECODED expansion of the leaf reached, averaged over the held trees (decode per tree, then average:
+        #      the decoder clamps, so the order matters for confident rows) ----------
+        if task == 'class':
+            qc = np.concatenate([X[:14], qrows[:7]]).astype(np.float32)          # training rows: confident, some trees saturate the clamp
+            formula_checked += class_formula(ck, xr, orc, model, qc, kern, desc, cmode, n_trees)
+
         # ---------- (ii-sq) a query batch with exactly as many rows as the leaf has centers (square kernel block, rows are NOT the centers) ----------
         if task in ('reg', 'reg2') and len(model.trees) == 1 and model.trees[0]['type'] == 'leaf':
             leaf = model.trees[0]
@@ -271,6 +313,25 @@ def run(ck):
                    f'(predict_hard probe {bs}%nat {coq_list(tcoq)} {coq_Qmat(B.tolist())}) {coq_Qmat(ens)}')
             if not any(abs(v) > 1e5 for row in B.tolist() for v in row):
                 cases.append((cid, coq)); meta[cid] = dict(desc, batch=bname, ensemble=True); cid += 1
+    # ---------- confident ensembles: separable classes, small ridge, 2-3 trees with different random splits — on fresh rows some trees overshoot (their decoded
+    #      probability sits at the clamp) while others do not ----------
+    for j in range(ck.n(4, 12)):
+        K = [2, 3][j % 2]; cm = ['prevalence', 'zero_one'][(j // 2) % 2]; nt = [2, 3][(j // 2) % 2]
+        n, d = 160, 3
+        Xc = xr.make_X('random', n, d, rng); Xvc = xr.make_X('random', 40, d, rng)
+        lab = lambda A: (np.digitize(A[:, 0], [-0.4, 0.4][: K - 1] if K == 3 else [0.0])).astype(np.int64)
+        xr.seed_all(1700 + j + ck.seed)
+        mc = xr.xRFM(rfm_params=xr.default_rfm_params(kernel=['l2', 'l1'][j % 2], iters=1, reg=[1e-3, 1e-2][j % 2], bandwidth=3.0), max_leaf_size=45, n_trees=nt, verbose=False,
+                     split_method=['random_pca', 'random_agop_on_subset'][j % 2], use_temperature_tuning=False, classification_mode=cm, refill_size=15)
+        descc = dict(kind='confident-ensemble', j=j, K=K, cmode=cm, n_trees=nt, n=n, seed=ck.seed)
+        try:
+            with xr.quiet():
+                mc.fit(torch.tensor(Xc), torch.tensor(lab(Xc)), torch.tensor(Xvc), torch.tensor(lab(Xvc)))
+        except Exception as e:
+            ck.notes.append(f'confident-ensemble fit failed: {e!r}'[:200]); continue
+        mc.split_temperature = None
+        ck.count(f'confident ensemble trees_held={len(mc.trees)}/{nt}')
+        formula_checked += class_formula(ck, xr, orc, mc, np.concatenate([xr.make_X('random', 50, d, rng), Xc[:10]]).astype(np.float32), ['l2', 'l1'][j % 2], descc, cm, nt)
     ck.count('formula rows checked', formula_checked)
     res = ck.run_bool_cases('probe', HEADER, cases, shard=40)
     bad = [meta[k] for k, v in res.items() if v is not True]
